@@ -117,11 +117,14 @@ theorem holdDemand_s (w : W) : (holdDemand w).s =
       tSrcReady := if w.s.conf.odStatic ∧ w.s.odSrc = .initial then true else w.s.tSrcReady,
       odSrc := if w.s.conf.odStatic ∧ w.s.odSrc = .initial then .waiting else w.s.odSrc,
       hkDemand := if ¬ w.s.conf.odStatic ∧ w.s.odPub = .initial then true else w.s.hkDemand,
-      tPubReady := if ¬ w.s.conf.odStatic ∧ w.s.odPub = .initial then true else w.s.tPubReady,
-      odPub := if ¬ w.s.conf.odStatic ∧ w.s.odPub = .initial then .waiting else w.s.odPub } := by
-  unfold holdDemand onDemandStaticSourceStart onDemandPublisherStart
+      tPubReady := if ¬ w.s.conf.odStatic ∧ w.s.odPub ≠ .waiting then true else w.s.tPubReady,
+      tPubClose := if ¬ w.s.conf.odStatic ∧ w.s.odPub = .closing then false else w.s.tPubClose,
+      odPub := if ¬ w.s.conf.odStatic then .waiting else w.s.odPub } := by
+  unfold holdDemand onDemandStaticSourceStart onDemandPublisherStart onDemandPublisherWaitAgain
   rcases w with ⟨s, o⟩
-  split <;> split <;> simp_all [srcStart_s]
+  by_cases h1 : s.conf.odStatic = true
+  · by_cases h2 : s.odSrc = .initial <;> simp_all [srcStart_s]
+  · cases h3 : s.odPub <;> (cases s; simp_all)
 
 theorem odStatic_iff (c : Conf) : c.odStatic = true ↔ (c.kind = .static ∧ c.sourceOnDemand = true) := by
   unfold Conf.odStatic; cases c.kind <;> simp
